@@ -2,7 +2,8 @@
 """Re-evaluate every kept seeded mutant against ALL current checks using in-memory overlays (patch applied to scratch copies, never to /repo)
 and refresh meta.json's detected_by. Prints a matrix."""
 import json, os, sys
-from concurrent.futures import ProcessPoolExecutor
+import subprocess
+from concurrent.futures import ThreadPoolExecutor
 VERIF = os.path.dirname(os.path.dirname(os.path.abspath(__file__)))
 sys.path.insert(0, VERIF)
 from sa import selftest, source, report
@@ -29,21 +30,36 @@ def one(name):
             out[pid] = {"exit": 2, "lines": ["ANALYSIS-ERROR " + m[:250] for m in chk.inconclusive[:2]]}
     return name, out
 
-names = sorted(n for n in os.listdir(os.path.join(VERIF, "seeded")) if os.path.exists(os.path.join(VERIF, "seeded", n, "meta.json")))
-with ProcessPoolExecutor(max_workers=16) as ex:
-    res = list(ex.map(one, names))
-missed = []
-for name, out in res:
-    mp = os.path.join(VERIF, "seeded", name, "meta.json")
-    m = json.load(open(mp))
-    if out is None:
-        print(f"{name}: patch no longer applies"); continue
-    m["detected_by"] = out
-    json.dump(m, open(mp, "w"), indent=1)
-    own = name.split("-")[0]
-    viol = sorted(p for p, v in out.items() if v["exit"] == 1)
-    inc = sorted(p for p, v in out.items() if v["exit"] == 2)
-    print(f"{name}: violation by {viol or '-'}" + (f" inconclusive in {inc}" if inc else "") + ("" if own in viol else "   <-- not caught by its own property's check"))
-    if not viol:
-        missed.append(name)
-print("MISSED:", missed)
+def main():
+    names = sorted(n for n in os.listdir(os.path.join(VERIF, "seeded")) if os.path.exists(os.path.join(VERIF, "seeded", n, "meta.json")))
+    def sub(name):
+        # one process per seeded change: the engine's per-repository caches are never released, a long-lived worker grows by ~0.4 GB per change
+        p = subprocess.run([sys.executable, os.path.abspath(__file__), "--one", name], capture_output=True, text=True)
+        if p.returncode != 0:
+            raise SystemExit(f"{name}: evaluation failed\n{p.stderr[-2000:]}")
+        return name, json.loads(p.stdout)
+
+    with ThreadPoolExecutor(max_workers=16) as ex:
+        res = list(ex.map(sub, names))
+    missed = []
+    for name, out in res:
+        mp = os.path.join(VERIF, "seeded", name, "meta.json")
+        m = json.load(open(mp))
+        if out is None:
+            print(f"{name}: patch no longer applies"); continue
+        m["detected_by"] = out
+        json.dump(m, open(mp, "w"), indent=1)
+        own = name.split("-")[0]
+        viol = sorted(p for p, v in out.items() if v["exit"] == 1)
+        inc = sorted(p for p, v in out.items() if v["exit"] == 2)
+        print(f"{name}: violation by {viol or '-'}" + (f" inconclusive in {inc}" if inc else "") + ("" if own in viol else "   <-- not caught by its own property's check"))
+        if not viol:
+            missed.append(name)
+    print("MISSED:", missed)
+
+
+if __name__ == "__main__":
+    if len(sys.argv) == 3 and sys.argv[1] == "--one":
+        print(json.dumps(one(sys.argv[2])[1]))
+    else:
+        main()
